@@ -39,6 +39,10 @@ CHECKS = {
          "exhaustive enumeration of argument domains for every built-in of the default runtime (table checked against the runtime's generated documentation at run time) through compiled scripts and direct Rust calls against std/inetnum references",
          "Every built-in (77 built-ins, 117 surface forms; the list is read from the runtime so a new built-in without a reference is a machinery error) on the full cross product of its domains: all strings of <= 3 symbols (thorough 5) over a multi-byte alphabet incl. CR/LF forms, every index 0..=len+1 plus 2^32/2^63/u64::MAX, all 8/16-bit integers and all 1.1 M chars for to_string, float edge sets, IPv4/IPv6/prefix sets, all StringBuf push sequences <= 3: the value through the compiled script (and through the public Rust method) equals the std / inetnum reference given by the documentation.",
          "The documentation defines the reference; `lines().slice(len, len)` treated as unspecified; List.* belongs to C15."),
+ "C18": ("4/C18",
+         "exhaustive enumeration of libraries built with the non-macro registration API (item trees x name patterns x injected defects x splits over add calls x all item permutations) against a reference model of the scope rules, followed by generated probe scripts for every bound and unbound path",
+         "All item trees with <= 3 items (4 reduced; thorough <= 4 complete) and module nesting <= 2 over {module, clone/copy type, function, method, static method, constant, use} with every name-equality pattern over the valid pool plus every single invalid name (keyword, leading digit, blank, empty, surrounding white space), zero or one injected defect, every distribution over 1-2 Runtime::add calls and EVERY permutation of each add's items: the model predicts Ok/Err for constructors and adds (a panic is a violation); after Ok one generated script calls every function/method, reads every constant and round-trips every type at its declared path and at every `use` path, one script per path the model does not bind must fail to compile, and the outcome must be identical for all permutations. 15 library! macro forms are checked on the valid subset.",
+         "Valid names are assumed interchangeable up to their equality pattern; the state after a failed add is unspecified (histories stop there)."),
  "C19": ("4/C19",
          "exhaustive enumeration of test-block placements x outcome vectors (library API) and of (sub-command, script kind) pairs (the roto binary built from the tree under test, run as a subprocess)",
          "Part A: four module trees, k <= 3 test blocks (k = 4 reduced; thorough k <= 6) with ALL placements and ALL 2^k accept/reject vectors in nine naming/outcome flavours (sorted vs source order, cross-module and in-module name collisions, same-named functions and filtermaps), each package compiled twice and run_tests called twice: Ok iff all accept, every block's mark logged exactly once per run in the same order, get_function never returns a test, a script cannot call a test (180 caller cases). Part B: all 8 sub-command forms x 20 script kinds = 160 launches of the roto binary: exit status and printed marks as the statement demands.",
